@@ -196,6 +196,7 @@ func TestC19(t *testing.T) {
 		}
 		var inst []dpt.Datapoint
 		var instT []int
+		scratch := make([]byte, 64)
 		nsteps := 6 + rng.Intn(10)
 		for s := 0; s < nsteps; s++ {
 			c := rng.Intn(10)
@@ -209,7 +210,15 @@ func TestC19(t *testing.T) {
 			case c < 7:
 				i := rng.Intn(len(inst))
 				p := 1 + rng.Intn(2)
-				err := inst[i].Unpack(samplePayload(types[instT[i]], p))
+				// every payload is decoded from one shared scratch buffer that is overwritten right after the
+				// call, as a receive loop does: an instance must not keep a reference into it
+				pl := samplePayload(types[instT[i]], p)
+				buf := scratch[:len(pl)]
+				copy(buf, pl)
+				err := inst[i].Unpack(buf)
+				for j := range buf {
+					buf[j] = 'Z'
+				}
 				r.Steps = append(r.Steps, regStep{Op: "unpack", Inst: i + 1, P: p, OK: B2i(err == nil), Val: noVal()})
 			default:
 				i := rng.Intn(len(inst))
